@@ -10,7 +10,7 @@ CONSTANTS
     Topics, Descs, Mons, RecKeys, RecVals,     \* aol alphabet
     FeePayers,                                  \* fee payer choices of AddRecord: subset of Accts \cup {"none"}
     Dids, DocNames, Keys, VmNames, Seqs,        \* did alphabet (documents are built in DocByName; Seqs: sequence numbers proofs are made over)
-    DenomIds, TokenIds, DNames,                 \* pnft alphabet
+    DenomIds, TokenIds, DNames, TDescs,         \* pnft alphabet (TDescs: token description / data values, may include "")
     Amts, SendDenoms, VestEnds,                 \* bank alphabet
     Fees,                                       \* fee choices, e.g. {0,1}
     Kinds,                                      \* enabled message types
@@ -42,7 +42,7 @@ Init ==
     /\ rest = [d \in Denoms |-> IF d = "umed" THEN 1000001 ELSE 0]
     /\ grants = {}
     /\ act = [name |-> "Init"]
-    /\ acked = {} /\ accepted = {}
+    /\ acked = {} /\ accepted = {} /\ delivered = << >>
     /\ ndel = 0
     /\ path = << >>
 
@@ -74,6 +74,7 @@ DocByName(d, name) ==
       [] name = "B12" -> Doc(d, {Vm("v1", "k1", "es19"), Vm("v2", "k2", "es18")}, {Ref("v1"), Ref("v2")}, {}) \* two authentication keys (2019 + 2018 types)
       [] name = "C1"  -> Doc(d, {Vm("v1", "k1", "es19"), Vm("v2", "k2", "es19")}, {Ref("v1")}, {"v2"})       \* k2 only a verification method + assertionMethod
       [] name = "D2"  -> Doc(d, {Vm("v1", "k1", "es19")}, {Ref("v1"), Ded("v2", "k2", "es19")}, {})          \* dedicated authentication method
+      [] name = "F12" -> Doc(d, {Vm("v1", "k1", "es19")}, {Ded("v1", "k2", "es19")}, {"v1"})                  \* dedicated authentication method (k2) sharing its id with a plain verification method (k1)
       [] name = "E1"  -> Doc(d, {Vm("v1", "k1", "ed25")}, {Ref("v1")}, {})                                   \* Ed25519-typed method holding a secp256k1 key
       [] name = "N0"  -> Doc(d, {Vm("v1", "k1", "es19")}, {}, {})                                            \* no authentication at all (statelessly invalid)
       [] name = "EMP" -> EmptyDoc
@@ -129,8 +130,8 @@ PnMsgs ==
     \cup (IF "pnft.TransferDenom" \in Kinds THEN
         {[type |-> "pnft.TransferDenom", id |-> i, actor |-> a, to |-> b] : i \in DenomIds, a \in Accts, b \in Accts} ELSE {})
     \cup (IF "pnft.Mint" \in Kinds THEN
-        {[type |-> "pnft.Mint", denom |-> d, id |-> i, actor |-> a, name |-> n, desc |-> "", uri |-> "u", hash |-> "", data |-> ""] :
-            d \in DenomIds, i \in TokenIds, a \in Accts, n \in DNames} ELSE {})
+        {[type |-> "pnft.Mint", denom |-> d, id |-> i, actor |-> a, name |-> n, desc |-> ds, uri |-> "u", hash |-> "", data |-> ds] :
+            d \in DenomIds, i \in TokenIds, a \in Accts, n \in DNames, ds \in TDescs} ELSE {})
     \cup (IF "pnft.Transfer" \in Kinds THEN
         {[type |-> "pnft.Transfer", denom |-> d, id |-> i, actor |-> a, to |-> b] : d \in DenomIds, i \in TokenIds, a \in Accts, b \in Accts} ELSE {})
     \cup (IF "pnft.Burn" \in Kinds THEN
@@ -180,11 +181,14 @@ MCBegin(m) == "BeginBlock" \in NextKinds /\ BeginBlock(m) /\ UNCHANGED ndel /\ H
 MCRestart(m) == "RestartBegin" \in NextKinds /\ RestartBegin(m) /\ UNCHANGED ndel /\ HistNext /\ path' = Append(path, act')
 MCExport(m) == "ExportImportBegin" \in NextKinds /\ ExportImportBegin(m) /\ UNCHANGED ndel /\ HistNext /\ path' = Append(path, act')
 
+MCRedeliver(i) == "Redeliver" \in NextKinds /\ ndel < MaxDeliver /\ (FailKeep = 1 \/ RandomElement(1..FailKeep) = 1) /\ Redeliver(delivered[i], i) /\ ndel' = ndel + 1 /\ HistNext /\ path' = Append(path, act')
+
 \* simulation only: keeps a behaviour going when the random filters above disabled everything else (dropped before replay)
 MCNoop == SimSample > 0 /\ act' = [name |-> "Noop"] /\ UNCHANGED <<height, phase, custom, bank, grants, hist, ndel, path>>
 
 Next ==
     \/ MCNoop
+    \/ \E i \in DOMAIN delivered : MCRedeliver(i)
     \/ \E tx \in Txs : MCDeliver(tx)
     \/ MCEndBlock
     \/ \E m \in Mints : MCBegin(m)
@@ -194,7 +198,7 @@ Next ==
 Spec == Init /\ [][Next]_mcvars
 
 \* state view for exhaustive checking: the last action is output only
-StateView == <<height, phase, custom, bank, grants, hist, ndel>>
+StateView == <<height, phase, custom, bank, grants, acked, accepted, ndel>>
 
 -----------------------------------------------------------------------------
 (* the properties, as TLC checks them *)
